@@ -184,6 +184,9 @@ def classify(stderr, closed, flags):
         # (the second form: the constant's declared type is a plain alias of a new-type alias; the value is not wrapped at all)
         # a constant of a typedef OF A TYPEDEF: wrapped once, `outer_t(2)`, where the field of outer_t is inner_t
         why = "newtype-alias-chain-constant"
+    elif code == "E0308" and re.search(r"ManuallyDrop<\s*__BindgenBitfieldUnit", stderr) and not [c for c in codes if c != "E0308"]:
+        # a union with bit-fields under the manually_drop union style: the raw accessors take the address of the ManuallyDrop wrapper
+        why = "union-bitfield-manually-drop"
     elif code == "E?" and "error:" in stderr:
         m = re.search(r"^error: (.*)$", stderr, re.M)
         why = re.sub(r"[^A-Za-z]+", "-", m.group(1) if m else "")[:40].strip("-")
